@@ -3,7 +3,7 @@
    handed to the HTML parser; that parsing the stream back gives the same text and structure is
    checked per input by the document-level observer of the harness. *)
 From Coq Require Import List NArith Arith Bool String.
-From WMD Require Import Gen.Tables Lib.Str Lib.PyChars Lib.Escape Lib.Difflib Model.RenderTokens Model.RenderMerge
+From WMD Require Import Gen.Tables Lib.Str Lib.PyChars Lib.Escape Lib.Difflib Model.RenderTokens Model.RenderMerge Model.RenderLabelled
      Proofs.DifflibProofs Proofs.MergeProofs Proofs.TokenProofs Proofs.AssembleProofs Proofs.RenderProofs.
 Import ListNotations.
 Open Scope N_scope.
